@@ -33,6 +33,7 @@ type spec struct {
 	Lo      int      `json:"lo"` // this case handles mutants [lo,hi)
 	Hi      int      `json:"hi"`
 	BaseDir string   `json:"base_dir,omitempty"` // load base.db/base.wal from here instead of harvesting (exact replay)
+	Demo    bool     `json:"demo,omitempty"`     // the pinned demonstration of the forged-commit-size finding
 }
 
 func init() {
@@ -43,13 +44,14 @@ func init() {
 			"{truncation at every frame boundary and inside headers/payloads, bit flips in WAL header / frame header fields / payload, frame duplication / insertion / swap / move, salt edits (header with and without header re-checksum, single frame, suffix, stale<->current), commit-field edits with and without re-checksumming the following chain, re-encoding to the other checksum byte order (alone and composed with the other classes), garbage / zero / torn tails, synthetic stale generations}; " +
 			"every input is decided against real SQLite recovery (copy without -shm, open, wal_checkpoint(TRUNCATE)) for each reader configuration: PageMap from the header, VerifPageMap chunked with budget {1 frame, 3 frames, 64 MiB} from the header, and NewWALReaderWithOffset from commit boundaries of the valid prefix with budget {0, 1 frame, 3 frames, 64 MiB}, chunks chained exactly as DB.sync does. " +
 			"one evaluation = one (input, reader configuration) image comparison (+ chunk-end and chunk-union tests). " +
-			"non-trivial input = committed prefix non-empty and (recovered image or committed prefix differs from the unmutated WAL's, or frames follow the last commit); distinct = (base, mutation class, outcome class) over non-trivial inputs",
+			"case 0 is a pinned demonstration input of the known finding forged-commit-size-breaks-writer-invariants. non-trivial input = committed prefix non-empty and (recovered image or committed prefix differs from the unmutated WAL's, or frames follow the last commit, or a forged commit size breaks the writer invariants); distinct = (base, mutation class, outcome class) over non-trivial inputs",
 		Assumptions: []string{
 			"modernc SQLite recovery + wal_checkpoint(TRUNCATE) is the reference for what SQLite treats as committed; cross-checked on a sample against the C SQLite of python3's sqlite3 module",
 			"the reference decoder O-WAL is used only for input geometry, commit-boundary selection and diagnostics and is itself compared with SQLite on every input",
 			"WALReader is driven directly (NewWALReader / NewWALReaderWithOffset / PageMap / VerifPageMap hook) and the publication step of DB.sync is mirrored by the harness (overlay, growth pages from the database file, trim to commit)",
 			"forged frames with page number 0 and valid checksums are outside the property's quantifier and are not generated",
-			"re-checksummed commit-field edits are judged when the forged sizes keep the two invariants of every SQLite-written WAL (a commit frame's page number <= the size it commits; a transaction writes every page it grows the database by); forged sizes that break them are still run against SQLite and litestream, the outcome is recorded under forged_sizes:* and not judged",
+			"every input is judged, including re-checksummed commit-field edits; when the forged size breaks one of the two invariants of every SQLite-written WAL (a commit frame's page number <= the size it commits; a transaction writes every page it grows the database by) any disagreement is reported under the single key forged-commit-size-breaks-writer-invariants (computed from the input, whatever symptom fires; symptoms are counted under forged_sizes_symptom:*); the few such inputs SQLite itself refuses to recover cannot be judged and are counted",
+			"case 0 of both tiers is the pinned demonstration of that finding (replays/C09-observation-forged-commit-size: base.db + base.wal, commit field of frame 1 set below its own page number, chain re-checksummed); when the files are missing the same workload is harvested again",
 		},
 		Cases:       cases,
 		RunCase:     runCase,
@@ -58,6 +60,19 @@ func init() {
 		CaseTimeout: 20 * time.Minute,
 	})
 }
+
+// forgedKey is the known-finding class: disagreements on inputs whose
+// re-checksummed commit-field edit breaks the SQLite writer invariants.
+const forgedKey = "forged-commit-size-breaks-writer-invariants"
+
+// demoDir holds the pinned demonstration input of that finding.
+func demoDir() string {
+	return filepath.Join(vf.Root, "replays", "C09-observation-forged-commit-size")
+}
+
+// demoBase is the workload the demonstration input was harvested from (used
+// when the saved files are not there).
+var demoBase = baseSpec{Idx: 1000, Seed: 4242, PageSize: 512, AutoVacuum: 0, Kind: 1}
 
 func tierShape(tier string) (bases, mutants, batch int) {
 	if tier == "thorough" {
@@ -101,6 +116,7 @@ func cases(run *vf.Run) ([]json.RawMessage, error) {
 		}
 	}
 	var out []json.RawMessage
+	out = append(out, vf.Spec(spec{Idx: 0, Base: demoBase, Demo: true, M: 1, Lo: 0, Hi: 1}))
 	for i := 0; i < nb; i++ {
 		for lo := 0; lo < nm; lo += batch {
 			out = append(out, vf.Spec(spec{Idx: len(out), Base: specs[i], MutSeed: vf.SubSeed(run.Seed, "C09-mut", i), M: nm, Lo: lo, Hi: min(lo+batch, nm)}))
@@ -145,6 +161,11 @@ func runCase(run *vf.Run, raw json.RawMessage, dir string) *vf.Result {
 	c := &caseCtx{run: run, s: s, dir: dir, res: res, triples: map[string]bool{}}
 	var err error
 	switch {
+	case s.Demo:
+		if c.base, err = loadBase(demoDir(), s.Base); err != nil {
+			res.Logf("saved demonstration base not found (%v): harvesting the same workload again", err)
+			c.base, err = harvest(filepath.Join(dir, "harvest"), s.Base)
+		}
 	case s.BaseDir != "":
 		c.base, err = loadBase(s.BaseDir, s.Base)
 	case os.Getenv("VERIF_C09_BASE") != "":
@@ -177,9 +198,26 @@ func runCase(run *vf.Run, raw json.RawMessage, dir string) *vf.Result {
 	} else {
 		c.origS = append([]byte{}, img...)
 	}
-	muts := buildMutants(c.base, s.MutSeed, s.M)
-	if s.Lo == 0 {
-		c.describeBase()
+	var muts []mutant
+	if s.Demo {
+		// commit field of the first non-final commit frame carrying a page > 1
+		// := that page number - 1, following checksum chain recomputed
+		for _, ix := range c.g.commitIx[:len(c.g.commitIx)-1] {
+			if fr := c.g.frames[ix]; fr.Pgno > 1 && ix > 0 {
+				muts = []mutant{{Class: "commit-lt-pgno+rechk", Op: "commit", A: ix, V: fr.Pgno - 1, Rechk: true}}
+				break
+			}
+		}
+		if len(muts) == 0 {
+			res.HarnessErr = "demonstration base has no commit frame to forge"
+			return res
+		}
+		res.Count("pinned_demonstration_cases", 1)
+	} else {
+		muts = buildMutants(c.base, s.MutSeed, s.M)
+		if s.Lo == 0 {
+			c.describeBase()
+		}
 	}
 	for j := s.Lo; j < s.Hi && j < len(muts); j++ {
 		c.walBuf = apply(muts[j], c.base, be, c.g, c.walBuf)
@@ -372,7 +410,9 @@ func (c *caseCtx) runMutant(j int, m mutant, wal []byte) {
 	if err != nil {
 		res.Count("sqlite_recovery_error", 1)
 		res.Logf("%s: SQLite recovery error: %v", tag, err)
-		if wf {
+		if !wf {
+			res.Count("forged_size_inputs_sqlite_itself_refuses", 1)
+		} else {
 			res.HarnessErr = fmt.Sprintf("%s: SQLite recovery failed: %v (witness %s)", tag, err, c.saveWitness(j, m, wal, "sqlite error: "+err.Error()))
 		}
 		return
@@ -425,12 +465,12 @@ func (c *caseCtx) runMutant(j int, m mutant, wal []byte) {
 		}
 	}
 	if !wf {
-		outcome += "/forged-sizes-no-sqlite-writer"
-		res.Count("inputs_forged_commit_sizes_outside_writer_invariants", 1)
+		outcome += "/forged-size-breaks-writer-invariants"
+		res.Count("inputs_forged_commit_size_breaks_writer_invariants", 1)
 	}
 	res.Count("outcome:"+outcome, 1)
 	prefixChanged := info.LastCommit != c.origInfo.LastCommit || info.DBSize != c.origInfo.DBSize
-	if wf && info.LastCommit > 0 && (imgChanged || prefixChanged || tail) {
+	if info.LastCommit > 0 && (imgChanged || prefixChanged || tail || !wf) {
 		c.triples[fmt.Sprintf("%d/%s/%s", c.s.Base.Idx, m.Class, outcome)] = true
 		res.Count("inputs_nontrivial", 1)
 	}
@@ -451,16 +491,21 @@ func (c *caseCtx) runMutant(j int, m mutant, wal []byte) {
 		fail := func(key, format string, a ...any) {
 			msg := fmt.Sprintf(format, a...)
 			if !wf {
-				// Byte strings no SQLite writer produces (see wellFormed): what
-				// litestream does with them is recorded, not judged.
-				res.Count("forged_sizes:"+key, 1)
+				// Known finding: a re-checksummed commit-field edit whose forged
+				// size breaks the writer invariants (see wellFormed). One key for
+				// the whole family, derived from the input, whatever symptom
+				// fires; the symptom is kept as an observation counter. The
+				// pinned demonstration (case 0) holds the witness files.
+				res.Count("forged_sizes_symptom:"+key, 1)
+				res.Logf("%s [%s]: %s", tag, cfg, msg)
+				res.Violate(forgedKey, "%s [%s]: input breaks SQLite writer invariants (%s); symptom=%s: %s; demonstration files: %s", tag, cfg, wfWhy, key, msg, demoDir())
 				return
 			}
 			d := c.saveWitness(j, m, wal, cfg+": "+msg)
 			res.Logf("%s [%s]: %s", tag, cfg, msg)
 			res.Violate(key, "%s [%s]: %s; input files: %s (base.db + mutant.wal)", tag, cfg, msg, d)
 		}
-		if wf {
+		{
 			res.Evals++
 			res.Count("cfg:"+kind, 1)
 			res.Count("chunks_published", run.Chunks)
@@ -537,22 +582,20 @@ func (c *caseCtx) runMutant(j int, m mutant, wal []byte) {
 					fail("chunk-union-differs", "union of chunk page maps (%d pages) != unchunked page map (%d pages)", len(run.Union), len(whole.Union))
 					return
 				}
-				if wf {
-					res.Count("chunk_union_other_offsets_same_bytes", 1)
-				}
-			} else if wf {
+				res.Count("chunk_union_other_offsets_same_bytes", 1)
+			} else {
 				res.Count("chunk_union_equals_unchunked_map", 1)
 			}
 		}
 		if !wf {
-			res.Count("forged_sizes:agrees-with-sqlite", 1)
+			res.Count("forged_sizes_symptom:none(agrees-with-sqlite)", 1)
 		}
 	}
 
 	// 1. PageMap from the header (what a first sync / snapshot uses)
 	whole := lsReplicate(ctx, c.base.DB, wal, ps, 32, c.base.DB, 0, true, &c.imgBuf)
 	judge("PageMap@header", whole, nil)
-	if whole.Status == "ok" && wf {
+	if whole.Status == "ok" {
 		// the selected frames against the reference decoder (diagnostic)
 		refPages := info.CommittedPages()
 		same := true
@@ -591,9 +634,7 @@ func (c *caseCtx) runMutant(j int, m mutant, wal []byte) {
 		want[commitIdx[rng.Intn(len(commitIdx))]] = true
 		all := append([]budget{{"unlimited", 0}}, budgets...)
 		for _, bd := range boundaries(c.base.DB, wal, info, want, &c.workBuf, &c.snapBufs) {
-			if wf {
-				res.Count("resume_offsets", 1)
-			}
+			res.Count("resume_offsets", 1)
 			for _, b := range all {
 				judge(fmt.Sprintf("resume-%s@%d", b.name, bd.Offset), lsReplicate(ctx, c.base.DB, wal, ps, bd.Offset, bd.Img, b.n, false, &c.imgBuf), nil)
 			}
